@@ -26,7 +26,7 @@ RULE = ("(1) C11's clean networks built 60..90% class-assortative, with targets 
 ASSUMPTIONS = ["a pairing is unordered: (a,b) and (b,a) are removed together and a created edge is accepted if either orientation has positive weight",
                "clause (2) is about typical behaviour: decided on workloads where the measured effect is > 20x the sampling noise, verdict = plain after < before",
                "violations of C11's clauses seen by the shared monitor are not C12's to report: such a run is counted inconclusive here"]
-HEADLINE = ["hard_rule_runs", "reused_object_runs", "created_edges", "accepted_swaps", "proposals", "numerator_missing_key", "numerator_zero_weight", "forbidden_pairings", "stopped_runs",
+HEADLINE = ["hard_rule_runs", "reused_object_runs", "created_edges", "accepted_swaps", "proposals", "numerator_missing_key", "numerator_zero_weight", "zero_draws_armed_on_forbidden_proposals", "forced_zero_draws_consumed", "forbidden_pairings", "stopped_runs",
             "retargeted_runs", "retargeted_created_edges", "targets_with_tiny_positive_weights", "approach_runs", "approach_decreased", "approach_sorted_ids_runs", "approach_sorted_ids_not_decreased"]
 REQUIRED = {"quick": {"created_edges": 500, "numerator_missing_key": 20, "numerator_zero_weight": 20, "approach_runs": 5, "forbidden_pairings": 50, "retargeted_created_edges": 100, "targets_with_tiny_positive_weights": 10},
             "thorough": {"created_edges": 20000, "numerator_missing_key": 500, "numerator_zero_weight": 500, "approach_runs": 30, "forbidden_pairings": 1000, "retargeted_created_edges": 2000, "targets_with_tiny_positive_weights": 200}}
@@ -114,7 +114,8 @@ def run_hard(case, res, reuse=None, rng=None):
     base = {"kind": "hard", "family": fam, "N": N, "classes": classes, "target": kind, "forbidden_pairings": removed,
             "params": {str(k.value): v for k, v in extra.items()}, "seed": case["seed"]}
     quick = not case.get("thorough")
-    mon = c11.run_rewire(res, G, names, T, extra, seed=case["seed"], ctx=base, cap=40000 if quick else 400000, stall=8000 if quick else 60000, reuse=reuse)
+    mon = c11.run_rewire(res, G, names, T, extra, seed=case["seed"], ctx=base, cap=40000 if quick else 400000, stall=8000 if quick else 60000, reuse=reuse,
+                         force_zero_draws=0.3 if case["seed"] % 2 else 0.0)
     res.count("hard_rule_runs")
     res.count("accepted_swaps", mon.accepted)
     res.count("proposals", mon.props)
